@@ -7,7 +7,7 @@ stdin : JSON list of jobs {src, header?, envs?}  (compiled one after the other I
 stdout: JSON list of {"ok": bool, "files"| "exc","jmc","msg", "records": [record]}
 record: {"kind": "repeat"|"list"|"lists"|"lazy", "body": str, "params": [..], "macros": [[k, v]..],
          "start","stop","step" | "strings" | "lists" | "pos","kw" (arguments of a lazy call as token lists:
-         ["str", content, is_backtick] | ["paren", cleaned text] | ["func", params, body] | ["other", text]),
+         ["str", content, is_backtick] | ["paren", cleaned text] | ["func", params, body] | ["other", text] | ["gap"] = blanks between two tokens),
          "texts": [texts handed to the parser, in order],
          "err": null | {"exc": class, "msg": str, "stage": "process"|"parse"}}
 """
@@ -138,6 +138,15 @@ def install():
             return ["func", head.string if head is not None else "()", tok.string]
         return ["other", tok.string]
 
+    def arg_rec(tokens, tokenizer):
+        """token records of one argument; ["gap"] where two tokens are not adjacent in the source"""
+        out = []
+        for i, t in enumerate(tokens):
+            if i and tuple(tokens[i - 1].end) != (t.line, t.col):
+                out.append(["gap"])
+            out.append(tok_rec(t, tokenizer))
+        return out
+
     orig_hl = PreFunction.handle_lazy
 
     def handle_lazy(self, args, kwargs, error_token, hardcode_parse_calc):
@@ -146,8 +155,8 @@ def install():
         try:
             rec["params"] = list(self.tokenizer.parse_param(self.params))
             # the arguments as token lists: [kind, ...]; the text of a bracket token is clean_up_paren_token's (outside the model)
-            rec["pos"] = [[tok_rec(t, self.tokenizer) for t in a] for a in args]
-            rec["kw"] = [[k, [tok_rec(t, self.tokenizer) for t in v]] for k, v in kwargs.items()]
+            rec["pos"] = [arg_rec(a, self.tokenizer) for a in args]
+            rec["kw"] = [[k, arg_rec(v, self.tokenizer)] for k, v in kwargs.items()]
         except Exception as e:  # noqa
             rec["input_error"] = type(e).__name__
         return run_recorded(rec, lambda: orig_hl(self, args, kwargs, error_token, hardcode_parse_calc))
